@@ -227,4 +227,9 @@ theorem C09_current (g : G) :
   rw [C09_source_validates]
   exact ⟨fun r h => (C09_validated_sound g r h).2, C09_validated_complete g, C09_validated_cycle_reported g⟩
 
+/-- the graph the model orders is the graph the caller described: `add_dependency` records every
+requirement it is handed, unconditionally (read by the translator on every run) -/
+theorem C09_source_add_dependency_records_all :
+    DEvo.Generated.addDependencyBody = ["self._pending_deps.add((node_key, dep_node_key))"] := by decide
+
 end DEvo.Props.C09
